@@ -117,6 +117,14 @@ structure ASOut where
   ts : Nat
   dur : Option Nat
   tl : Option (List (Nat × Nat))
+  pto : Option Nat := none           -- presentationTimeOffset (multi-period only)
+  cont : Bool := false               -- period-continuity SupplementalProperty
+  deriving Repr, DecidableEq
+
+structure PeriodOut where
+  id : Nat                            -- "P{id}"
+  startS : Nat
+  sets : List ASOut
   deriving Repr, DecidableEq
 
 structure MpdOut where
@@ -124,7 +132,7 @@ structure MpdOut where
   astS : Nat
   ptMS : Nat                          -- publishTime in ms
   durS : Option Nat                   -- mediaPresentationDuration (static only)
-  sets : List ASOut
+  periods : List PeriodOut
   deriving Repr, DecidableEq
 
 inductive MpdRes | ok (m : MpdOut) | err | panic
@@ -164,6 +172,8 @@ structure MpdCfg where
   ato : Ato
   mpdType : MpdType
   stopS : Option Nat
+  periodsPerHour : Option Nat := none
+  continuous : Bool := false
   deriving Repr
 
 inductive BodyRes | ok (outs : List ASOut) (pt : Nat) | err | panic
@@ -211,7 +221,43 @@ def liveMpdBody (a : Asset) (sets : List ASDef) (cfg : MpdCfg) (endMS : Nat) : B
       | _ => cfg.startS * 1000
   .ok outs pt
 
-/-- single-period `LiveMPD` -/
+/-- `reduceS` on the expanded timeline: the entries whose start lies in `[pStart, pEnd)` (ticks) and the number
+of the first of them (`startNr` + entries before `pStart`) -/
+def reduceS (entries : List (Nat × Nat)) (startNr pStart pEnd : Nat) : List (Nat × Nat) × Nat :=
+  let kept := entries.filter (fun e => pStart ≤ e.1 ∧ e.1 < pEnd)
+  -- an empty period that is not followed by a later entry keeps the incoming startNumber (the Go loop runs to the end)
+  (kept, if kept.isEmpty ∧ ¬ entries.any (fun e => pEnd ≤ e.1) then startNr
+         else startNr + (entries.filter (fun e => e.1 < pStart)).length)
+
+inductive SplitRes | ok (ps : List PeriodOut) | err | panic
+  deriving Repr
+
+/-- `splitPeriod` applied to the single-period AdaptationSets -/
+def splitPeriod (a : Asset) (cfg : MpdCfg) (wt : WrapTimes) (sets : List ASOut) (pph : Nat) : SplitRes :=
+  if pph = 0 then .panic else                      -- 3600 / 0
+  let pd := 3600 / pph
+  if a.segDurMS = 0 then .panic else
+  if pd * 1000 % a.segDurMS ≠ 0 then .err else
+  if pd = 0 then .panic else                       -- startTimeMS / (0·1000)
+  -- (`fix:` commit) period numbers are counted from availabilityStartTime
+  let startP := (wt.startTimeMS - cfg.startS * 1000) / (pd * 1000)
+  let endP := (wt.nowMS - cfg.startS * 1000) / (pd * 1000)
+  let ps := (List.range' startP (endP + 1 - startP)).map fun p =>
+    let sets' := sets.map fun (o : ASOut) =>
+      let pto := p * pd * o.ts
+      match o.tl with
+      | none =>
+        -- $Number$ template: startNumber from the period start (the Go code divides by zero for dur = 0)
+        { o with pto := some pto, startNr := some ((p * pd * o.ts / (o.dur.getD 1) + cfg.startNr) % 4294967296),   -- (`fix:` commit: + snr)
+                 cont := cfg.continuous }
+      | some tl =>
+        let red := reduceS tl (o.startNr.getD 0) (p * pd * o.ts) ((p + 1) * pd * o.ts)
+        { o with pto := some pto, tl := some red.1, cont := cfg.continuous,
+                 startNr := if o.timeAddr then none else some (red.2 % 4294967296) }
+    ({ id := p, startS := p * pd, sets := sets' } : PeriodOut)
+  .ok ps
+
+/-- `LiveMPD` -/
 def liveMpd (a : Asset) (sets : List ASDef) (cfg : MpdCfg) (nowMS : Nat) : MpdRes :=
   if a.loopMS = 0 then .panic else
   let afterStop := match cfg.stopS with | some s => decide (s * 1000 < nowMS) | none => false
@@ -220,8 +266,22 @@ def liveMpd (a : Asset) (sets : List ASDef) (cfg : MpdCfg) (nowMS : Nat) : MpdRe
   | .err => .err
   | .panic => .panic
   | .ok outs pt =>
-    if afterStop then
-      .ok { dynamic := false, astS := cfg.startS, ptMS := pt, durS := some ((cfg.stopS.getD 0) - cfg.startS), sets := outs }
-    else .ok { dynamic := true, astS := cfg.startS, ptMS := pt, durS := none, sets := outs }
+    let fin (ps : List PeriodOut) (pt : Nat) : MpdRes :=
+      if afterStop then
+        .ok { dynamic := false, astS := cfg.startS, ptMS := pt, durS := some ((cfg.stopS.getD 0) - cfg.startS), periods := ps }
+      else .ok { dynamic := true, astS := cfg.startS, ptMS := pt, durS := none, periods := ps }
+    match cfg.periodsPerHour with
+    | none => fin [{ id := 0, startS := 0, sets := outs }] pt
+    | some pph =>
+      if outs.any (fun o => o.tl.isNone ∧ o.dur = some 0) then .panic else
+      match splitPeriod a cfg (calcWrapTimes a cfg.startS endMS cfg.tsbdS) outs pph with
+      | .panic => .panic
+      | .err => .err
+      | .ok ps =>
+        -- $Number$ MPDs: publishTime = start of the last period
+        let pt' := match cfg.mpdType with
+          | .number => cfg.startS * 1000 + (ps.getLast?.map (·.startS)).getD 0 * 1000
+          | _ => pt
+        fin ps pt'
 
 end Core
